@@ -275,7 +275,10 @@ class GaussianBackend(BaseGaussian):
         if modes is None:
             modes = list(range(len(self.get_modes())))
 
-        listmodes = list(concatenate((2 * array(modes), 2 * array(modes) + 1)))
+        # ``modes`` are positions in the list of active modes; after a deletion the data
+        # of the k-th active mode does not sit in the k-th stored row any more
+        rows = array(self.get_modes(), dtype=int)[modes]
+        listmodes = list(concatenate((2 * rows, 2 * rows + 1)))
         covmat = empty((2 * len(modes), 2 * len(modes)))
         means = r[listmodes]
 
@@ -286,7 +289,7 @@ class GaussianBackend(BaseGaussian):
         means *= sqrt(2 * self.circuit.hbar) / 2
         covmat *= self.circuit.hbar / 2
 
-        mode_names = ["q[{}]".format(i) for i in array(self.get_modes())[modes]]
+        mode_names = ["q[{}]".format(i) for i in rows]
         return BaseGaussianState((means, covmat), len(modes), mode_names=mode_names)
 
     def mzgate(self, phi_in, phi_ex, mode1, mode2):
